@@ -33,6 +33,7 @@ type c08Case struct {
 	Exts     []string      `json:"exts,omitempty"`
 	PreOps   []string      `json:"preOps,omitempty"` // root entry: earlier operations on the same node tree ...
 	Again    int           `json:"again,omitempty"`  // ... which then lacked its last Again nodes (added afterwards, before the verified call)
+	FsRoot   string        `json:"fsRoot,omitempty"` // non-empty: the target directory is the file system root of a chrooted worker, given as this option value ("/", "//", "/.", "/x/..")
 }
 
 func init() { registerReplay("c08", c08Check) }
@@ -187,7 +188,11 @@ func c08Check(c c08Case) string {
 		cs.FS.Pre = pre
 	}
 	var res *ops.Result
-	if c.Massive {
+	if c.FsRoot != "" {
+		cs.Opts.TargetOpt = "fsroot"
+		cs.Opts.TargetRaw = c.FsRoot
+		res = pool("chroot").Run(&cs)
+	} else if c.Massive {
 		res = pool("plain").Run(&cs)
 	} else {
 		res = ops.DefaultEnv.Run(&cs)
@@ -210,6 +215,9 @@ func c08Check(c c08Case) string {
 	}
 	// differences computed from the snapshot
 	state := targetRel(res.Before)
+	if c.FsRoot != "" {
+		state = res.Before // the snapshot of the chroot is the state below "/"
+	}
 	if c.RootLink {
 		// read the state through the root links
 		through := map[string]string{}
@@ -279,6 +287,9 @@ func c08Check(c c08Case) string {
 		prefix = "" // absolute: strip everything up to ".../work/target/"
 	}
 	rel := func(p string) string {
+		if c.FsRoot != "" {
+			return strings.TrimLeft(filepath.ToSlash(filepath.Clean(p)), "/")
+		}
 		if c.Target == "rel" {
 			return strings.TrimPrefix(filepath.ToSlash(p), prefix)
 		}
@@ -397,6 +408,9 @@ func c08Record(col *collector, c c08Case) {
 	if len(c.PreOps) > 0 && c.Again > 0 {
 		cl = append(cl, "verified-before-then-grown")
 	}
+	if c.FsRoot != "" {
+		cl = append(cl, "target-is-file-system-root")
+	}
 	nontrivial := deep || c.History == "mkdir" && len(c.Exts) > 0 || len(c.AsFile) > 0
 	col.eval(nontrivial, hash64(fmt.Sprint(c)), cl...)
 	col.sample(func() any { return c })
@@ -443,6 +457,17 @@ func c08Gen() *rapid.Generator[c08Case] {
 			c.RootLink = false
 			if linkTarget(c.Target) {
 				c.Target = ""
+			}
+		}
+		shortRoots := true
+		for _, r := range f {
+			shortRoots = shortRoots && len(r.Name) <= 200
+		}
+		if !c.RootLink && c.Refusal == "" && shortRoots && rapid.IntRange(0, 7).Draw(t, "fsRoot") == 0 {
+			c.FsRoot = rapid.SampledFrom([]string{"/", "//", "/.", "/x/.."}).Draw(t, "fsRootSpelling")
+			c.Target = ""
+			for _, r := range f { // (names that cannot collide with what else lives in the worker's root directory)
+				r.Name = "R-" + r.Name
 			}
 		}
 		n := model.Merge(f).Count()
